@@ -572,6 +572,10 @@ func (w *Writer) WriteCompressed(refs []Reference, objects ...Object) error {
 		return err
 	}
 
+	if len(objects) == 0 {
+		return nil
+	}
+
 	if !w.outputOptions.HasAny(optObjStm) {
 		// If object streams are disabled, write the objects directly.
 		for i, obj := range objects {
